@@ -11,7 +11,7 @@ import itertools
 SUPPORTS_REPLAY = True
 SHARDS = {'quick': 16, 'thorough': 64}
 TIMEOUT = {'quick': 900, 'thorough': 5400}
-MUST_HIT = ['OrderedSetInv', 'ListModel', 'icontract.OrderedSetInv', 'Operand.binary-operand-with-repeats', 'Operand.one-shot-iterator-operand']
+MUST_HIT = ['OrderedSetInv', 'ListModel', 'icontract.OrderedSetInv', 'Operand.binary-operand-with-repeats', 'Operand.one-shot-iterator-operand', 'Ambient.OrderedSetInv.ambient', 'Ambient.Suite.tests-passed']
 MUST_REACH = ['xtuml/tools.py:OrderedSet.add', 'xtuml/tools.py:OrderedSet.discard',
               'xtuml/tools.py:OrderedSet.pop', 'xtuml/tools.py:OrderedSet.__eq__',
               'xtuml/tools.py:OrderedSet.__reversed__', 'xtuml/meta.py:QuerySet.last']
@@ -456,6 +456,11 @@ def run(ctx):
         except Mismatch as e:
             ctx.violation(e.key, e.what, case=dict(cls=cls.__name__, ops=hist))
     icontract_history(ctx, ctx.share(64 if ctx.tier == 'quick' else 1000))
+    if ctx.shard == ctx.nshards - 1:
+        # every ordered set the library builds while the repository's own tests run (link entries, query results,
+        # instance pools): structural invariant after each mutation (always up to 12 elements, sampled above)
+        from vf import ambient
+        ambient.report(ctx, ambient.run_suite(ctx, ('sets',)), 'Ambient')
 
 
 def one(ctx, cls, hist, universe, every):
